@@ -83,13 +83,13 @@ int main(int argc, char **argv) {
     else if (strcmp(dom, "buffmt") == 0) dom_buffmt();
     else if (strcmp(dom, "roundtrip") == 0) dom_roundtrip();
     else if (strcmp(dom, "p01") == 0) dom_p01();
-    else if (strcmp(dom, "p02") == 0) { dom_p02(); dir_p02(); dir_p02b(); }
+    else if (strcmp(dom, "p02") == 0) { dom_p02(); dir_p02(); dir_p02b(); dir_p02c(); }
     else if (strcmp(dom, "p04") == 0) dom_p04();
     else if (strcmp(dom, "p17") == 0) dom_p17();
     else if (strcmp(dom, "p05") == 0) { dom_p05(); dir_p05(); }
     else if (strcmp(dom, "p06") == 0) { dom_p06(); dir_p06(); }
     else if (strcmp(dom, "p08") == 0) dom_p08();
-    else if (strcmp(dom, "p09") == 0) { dom_p09(); dir_p09(); dir_p09b(); }
+    else if (strcmp(dom, "p09") == 0) { dom_p09(); dir_p09(); dir_p09b(); dir_p09c(); }
     else if (strcmp(dom, "p09u") == 0) dom_p09u();
     else if (strcmp(dom, "p21") == 0) dom_p21();
     else if (strcmp(dom, "pline") == 0) dom_pline();
